@@ -18,7 +18,7 @@ RULE = ("every ordered pair of comparand values from a pool covering the 9 kinds
         "$-absolute singular query on planted members, value()/length()/count() results, missing member / value() of many for nothing); "
         "observed = whether find('$[?L op R]', [child]) selects the child; oracle = comparison table of RFC 9535 2.3.5.2.2. "
         "Non-trivial: kind pair for which some operator can be true; distinct by (values, op, producers). cell_table = (kind,kind,op) cells observed."
-        " Half of the cases add a sibling child with other values under the same member names (before or after the tested child) so that nothing computed for one child can be reused for the other; a nested-call sweep (current node only inside a nested call) and near-equal floats / integers beyond 2^53 in documents are included.")
+        " Half of the cases add a sibling child with other values under the same member names (before or after the tested child) so that nothing computed for one child can be reused for the other; a nested-call sweep (current node only inside a nested call) and near-equal floats / integers beyond 2^53 in documents are included. Comparands nested 40/100/160 levels are also compared from 100 call-stack depths up to the recursion limit (the table's answer or out-of-stack, never another answer).")
 ASSUMPTIONS = ["oracle vf/oracle/sem.py:compare is the RFC table (type-strict at every depth, bool never a number)",
                "number literals restricted to exactly representable values"]
 DECIDING_MONITORS = ["M-find"]
@@ -197,6 +197,34 @@ def run_shard(spec, rec):
                         if got != want:
                             rec.violation("cmp:nested-call int %s int" % op, {"query": query, "document": jsonable(child), "op": op,
                                                                               "expected_selected": [list(l) for l in want], "observed": jsonable(got)})
+    # deep comparands evaluated from a band of call-stack depths up to the recursion limit: the table's answer, or the
+    # evaluation runs out of stack - never another answer
+    if spec["shard"] < 4:
+        deep = [_nest(n, leaf, kind) for n in (40, 100, 160) for leaf, kind in ((1, "list"), (True, "list"), ([1, 2], "mix"), ({"z": 0}, "dict"))]
+        for i_, lv in enumerate(deep):
+            for rv in (D.deep_copy(lv), deep[(i_ + 1) % len(deep)]):
+                for op in ("==", "!=", "<=", ">"):
+                    if (i_ + len(op)) % 4 != spec["shard"]:
+                        continue
+                    want = sem.compare(op, lv, rv)
+                    doc = [{"l": lv, "r": rv}]
+                    query = "$[?@.l %s @.r]" % op
+                    o = mon.observe(jp.compile, query)
+                    if o[0] != "ok":
+                        continue
+                    c = o[1]
+                    for d, oo in [(0, mon._plain(lambda: [tuple(n.location) for n in c.finditer(doc)], ()))] + mon.depth_band(lambda: [tuple(n.location) for n in c.finditer(doc)], (), range(500, 996, 5)):
+                        rec.monitor("M-find")
+                        rec.case(("deep-band", i_, op, d, lv is rv), True)
+                        rec.feat("deep-comparands:" + ("plain" if d == 0 else "deep-stack"))
+                        if oo[0] == "exc" and isinstance(oo[1], RecursionError):
+                            rec.feat("deep-comparands:ran-out-of-stack")
+                            continue
+                        got = oo[1] if oo[0] == "ok" else mon.describe_outcome(oo)
+                        if got != ([(0,)] if want else []):
+                            rec.violation("cmp:deep-comparands-from-deep-stack" if d else "cmp:deep-comparands", {"query": query, "comparand_nesting": "see document", "op": op, "extra_stack_depth": d,
+                                          "document": jsonable(doc), "expected_selected": [[0]] if want else [], "observed": jsonable(got)})
+                            break
     rec.extra["cell_table"] = cells
     rec.exhaustive = True
 
